@@ -548,7 +548,7 @@ class DiscriminatedUnionUnpackerBuilder(AbstractUnpackerBuilder):
                 spec.builder.ensure_object_imported(spec.builder.__class__)
                 lines.append(
                     "CodeBuilder(variant, "
-                    "dialect=_dialect, "
+                    "dialect=None, "
                     f"format_name={repr(spec.builder.format_name)}, "
                     "default_dialect=_default_dialect)"
                     ".add_unpack_method()"
@@ -564,7 +564,7 @@ class DiscriminatedUnionUnpackerBuilder(AbstractUnpackerBuilder):
             lines.append(f"{spec.attrs_registry_name}[variant] = {attrs}")
             lines.append(
                 "CodeBuilder(variant, "
-                "dialect=_dialect, "
+                "dialect=None, "
                 f"format_name={repr(spec.builder.format_name)}, "
                 "default_dialect=_default_dialect,"
                 f"attrs={attrs},"
